@@ -1,5 +1,6 @@
 import TrucModel.Proofs.Memory
 import TrucModel.Proofs.Refine
+import TrucModel.Proofs.EndToEnd
 import TrucModel.Generated.Primitives
 /-
   C04 — A record gives back exactly the field values that were put into it.
@@ -91,6 +92,32 @@ theorem C04_set_frame (dr : String → Bool) (b : Buf) (d : D) (e : Ext) (v : Va
     (∀ d', KeyNe d d' → (b.assign dr d v).1.find d' = b.find d') ∧
     (b.assign dr d v).2 = (if dr d.ty then [e.val] else []) :=
   ⟨(assign_ok dr b d e v hv hf).2.1, (assign_ok dr b d e v hv hf).2.2, (assign_ok dr b d e v hv hf).1⟩
+
+/-- **end to end.** The premises (`ModuleWF`) of the generated-code theorems C04–C07 hold for the code
+    generated from *every* definition built by a valid request history (any strategies, C01/C02/C12
+    supply disjointness, capacity and unique names), for every capacity at least `max_size()`, provided
+    the naming / typing hypotheses: no field is called `record`, only plain-old-data may stay
+    uninitialised, zero-size fields are droppable markers and no two of the same type sit at the
+    same address of one variant. -/
+theorem C04_premises_hold_for_builder_output (dr : String → Bool) (reqs : List Req) (hv : ∀ r ∈ reqs, r.valid)
+    (d : Definition) (hb : (Truc.run reqs).build = some d) (ms cap : Nat) (hms : d.maxSize = some ms) (hcap : ms ≤ cap)
+    (hzk : ∀ v ∈ d.variants, ∀ a ∈ v, ∀ b ∈ v, a ≠ b → sz d.defs a = 0 → sz d.defs b = 0 → off d.defs a = off d.defs b →
+      minTok (info d.defs a).ty ≠ minTok (info d.defs b).ty)
+    (hnr : ∀ i ∈ d.defs, i.name ≠ "record") (hpod : ∀ i ∈ d.defs, i.uninit = true → dr (minTok i.ty) = false)
+    (hzd : ∀ i ∈ d.defs, i.size = 0 → dr (minTok i.ty) = true) :
+    ModuleWF dr cap (specs d) := by
+  have hd : d = ⟨(Truc.run reqs).defs, (Truc.run reqs).variants⟩ := by
+    unfold BState.build at hb
+    split at hb
+    · simp only [Option.some.injEq] at hb; exact hb.symm
+    · simp at hb
+  have hinv := reachable_inv2 reqs hv
+  apply specs_moduleWF
+  refine ⟨?_, ?_, ?_, hzk, hnr, hpod, hzd⟩
+  · intro v hvm; rw [hd] at hvm ⊢; exact hinv.1.vinv v hvm
+  · intro v hvm; rw [hd] at hvm ⊢; exact hinv.2.variants v hvm
+  · intro v hvm id hid
+    exact Nat.le_trans (maxSize_ge hms hvm hid) hcap
 
 /-- non-vacuity: two adjacent fields, one odd-sized -/
 example : (match (do
